@@ -560,6 +560,8 @@ def scan(it, a, k, node):
     final = J.tree_map_py(lambda leaf: next(fit), c2)
 
     def stack_leaf(leaf):
+        if isinstance(leaf, I.Term):
+            return I.Term("scan_map", leaf, bound, n_len)
         t = J._arr(leaf)
         if any(b[0] == "carry" and b[1] == sid for e in t.data for b in e.all_atoms()):
             raise Unsupported("scan emits a carry-dependent value in array mode")
